@@ -35,7 +35,7 @@ func init() {
 				Quick: map[string]int{}, Witnesses: []string{"fresh", "reused"}},
 			{Pkg: "wire", Entry: "VerifH18b", What: "retained query text and parameter value equal their private copies after K later messages with sizes around the 4 KiB granule and the limit",
 				Quick: map[string]int{"K": 2}, Thorough: map[string]int{"K": 3},
-				Witnesses: []string{"later-message-near-granule", "later-oversized-message", "large-retained-message"}},
+				Witnesses: []string{"later-message-near-granule", "later-oversized-message", "large-retained-message", "abandoned-copy"}},
 		},
 	})
 }
